@@ -657,13 +657,29 @@ type Function struct {
 
 func WriteStrings(out *strings.Builder, list []Object, before, sep, after string) {
 	out.WriteString(before)
+	check := inspectCheckStart
 	for i, p := range list {
 		if i > 0 {
 			out.WriteString(sep)
 		}
 		out.WriteString(p.Inspect())
+		check = inspectSizeCheck(out, check)
 	}
 	out.WriteString(after)
+}
+
+// The printed form of a value can be vastly bigger than the value (an array holding a million references to
+// one big array): while it is being built, its size is checked against the memory budget each time it has doubled.
+const inspectCheckStart = 1 << 20
+
+func inspectSizeCheck(out *strings.Builder, check int) int {
+	if out.Len() <= check {
+		return check
+	}
+	// The text is held several times over before it is gone (builder growth, nesting, the caller's output
+	// buffer), so 8 times its current size must still fit.
+	MustBeOk(out.Len() / 2)
+	return 2 * out.Len()
 }
 
 func (f Function) Unwrap(forceStringKeys bool) any {
@@ -1128,6 +1144,7 @@ func (m SmallMap) Inspect() string {
 func (m *BigMap) Inspect() string {
 	out := strings.Builder{}
 	out.WriteString("{")
+	check := inspectCheckStart
 	for i, kv := range m.kv {
 		if i != 0 {
 			out.WriteString(",")
@@ -1135,6 +1152,7 @@ func (m *BigMap) Inspect() string {
 		out.WriteString(kv.Key.Inspect())
 		out.WriteString(":")
 		out.WriteString(kv.Value.Inspect())
+		check = inspectSizeCheck(&out, check)
 	}
 	out.WriteString("}")
 	return out.String()
